@@ -27,3 +27,23 @@ def register(claim):
           "before the counter moves.",
           NOTE_COMMON + " Equality with a reference map over arbitrary operation sequences is not decided; SQLite semantics trusted.",
           "DESIGN.md#c13")
+
+    claim("C05", "who-may-call + CFG reachability/dominance on send_msg and Codec.encode, def-use of the frame value, writer inventory of next_num_out",
+          "Static, all paths: one allocation site and one encoder caller; no state refusal reachable after the allocation; write() and "
+          "persist_msg(OUTBOUND) get the same single-definition value from encode and both lie on every completed send; the journal key "
+          "scan (SOH 34=) agrees with the encoder's field order; the stored counter is the row's own number; nobody but the allocator and "
+          "the journaler writes next_num_out.",
+          NOTE_COMMON + " The arithmetic 'exactly one greater than the previous' across the resend rewind is C06/C14's bracket and is a known finding there.",
+          "DESIGN.md#c05")
+    claim("C09", "symbolic provenance of counter writes vs journaled tag, dominance (journal before wire), call-graph reachability from constructors",
+          "Static: every live counter write has a durable twin of the same provenance (tag 34 of the journaled frame or set_seq_num), "
+          "persist_msg dominates the transport write, constructors/connect never write counters and bind the session with matching CompID "
+          "roles, both loaders decode stored+1, renumbering commits, every accepted inbound message is journaled from a finally epilogue.",
+          NOTE_COMMON + " 'Continues without loss after reconnect' for arbitrary histories is C07 territory and not decided. One pinned known finding (SequenceReset stored counter).",
+          "DESIGN.md#c09")
+    claim("C14", "suspension-point analysis (transitive await summaries) over CFG windows",
+          "Static over all schedules: asyncio switches only at await, and every suspension point is enumerated; none lies between number "
+          "allocation and journal/transport write, the frame is task-local, the numbering callees are synchronous; the resend rewind "
+          "window is checked per suspension site (two known findings: the replay awaits inside the window).",
+          NOTE_COMMON + " asyncio's one-task-at-a-time semantics trusted; FIFO wake-up order of drain is not modelled.",
+          "DESIGN.md#c14")
